@@ -592,6 +592,34 @@ OPS.update({
 })
 
 
+def _dict_result(d, keys):
+    """rekey/check return a dict carrying the status next to the data."""
+    if _raw(d.get('result_status')) != RS.SUCCESS.value:
+        class _R(object):
+            result_status, result_reason, result_message = (d.get('result_status'), d.get('result_reason'),
+                                                            d.get('result_message'))
+        raise _ProxyFailure(_R)
+    return tuple(_raw(d.get(k)) for k in keys)
+
+
+# operations the PyKMIP server does not implement: its real answer is a failure, which the client has
+# to report as such (and every derived failure / invalid response likewise)
+OPS.update({
+    'proxy_rekey': (lambda c, i: _dict_result(c.proxy.rekey(uuid=i['key'], offset=0), ['unique_identifier']),
+                    lambda p: (_tv(p, T.UNIQUE_IDENTIFIER),), lambda r: tuple(r)),
+    'proxy_check': (lambda c, i: _dict_result(c.proxy.check(i['key'], 5, [CUM.ENCRYPT], 10),
+                                              ['unique_identifier', 'usage_limits_count', 'lease_time']),
+                    lambda p: (_tv(p, T.UNIQUE_IDENTIFIER), _tv(p, T.USAGE_LIMITS_COUNT), _tv(p, T.LEASE_TIME)),
+                    lambda r: tuple(r)),
+    'proxy_rekey_key_pair': (
+        lambda c, i: _px(c.proxy.rekey_key_pair(
+            private_key_uuid=W.cattrs.PrivateKeyUniqueIdentifier(i['key'])),
+            lambda r: (_raw(r.private_key_uuid), _raw(r.public_key_uuid))),
+        lambda p: (_tv(p, T.PRIVATE_KEY_UNIQUE_IDENTIFIER), _tv(p, T.PUBLIC_KEY_UNIQUE_IDENTIFIER)),
+        lambda r: tuple(r)),
+})
+
+
 def run_sequences(part):
     """One long-lived client runs the whole operation table (forward, then backward); the server
     state is reset before every call, only the CLIENT object persists. Every request it emits and
